@@ -85,6 +85,26 @@ def check(chk):
     _c02._start_wait_taken_only_when_starting(chk)
     from sa.helpers import unload_cleanup_unconditional
     unload_cleanup_unconditional(chk, "PAIR-8")
+    # a config player never plays for a mode that has stopped: a queue event held by another handler iterates over a snapshot of the handlers,
+    # so the player's callback can still be called after mode_stop removed it; the entry it would create under the stopped mode's context is
+    # cleared by nobody
+    cpc = repo.func("mpf/core/config_player.py", "ConfigPlayer.config_play_callback")
+    chk.analysed(cpc)
+    ccfg = cpc.cfg()
+    pl_ = [(n, c) for n, c in ccfg.calls_named("play") if dotted(c.func.value) == "self"]
+    chk.need(len(pl_) == 1, "PAIR-8", "config_play_callback plays through self.play", cpc)
+    from sa.helpers import feasible_paths
+    bad = [(pth, fx) for pth, fx in feasible_paths(ccfg, ccfg.entry.id, [pl_[0][0].id]) if fx.get("mode") is True and fx.get("mode.active") is not True and
+           fx.get("not mode.active") is not False]
+    chk.ob("PAIR-8", "a config player plays for a mode only while that mode is active (a callback called late, from a held queue event, does nothing)", not bad,
+           cpc.where(pl_[0][1]), path=ccfg.fmt_path(bad[0][0], "mpf/core/config_player.py") if bad else None, construct=cpc.ident,
+           text="config player plays for an inactive mode")
+    kw = {k.arg: src(k.value) for k in pl_[0][1].keywords}
+    ok = kw.get("context") == "context" and kw.get("settings") == "settings" and kw.get("calling_context") == "calling_context" and kw.get("priority") == "priority"
+    ctx = [x for x in walk_local(cpc.node) if isinstance(x, ast.Assign) and src(x.targets[0]) == "context"]
+    ok = ok and sorted(src(x.value) for x in ctx) == sorted(["mode.name", "'_global'"])
+    chk.ob("PAIR-8", "what it plays is registered under the mode's own context (its name; `_global` without a mode), which mode_stop clears", ok, cpc.where(),
+           detail=str(kw), construct=cpc.ident, text="config player context")
 
     # ------------------------------------------------------------ TRACE-2
     CHAIN = [
@@ -738,6 +758,7 @@ def battery():
         M("delayed control event armed on the machine-wide delay manager", MD, "        self.delay.add(ms=ms_delay, callback=callback, mode=self)", "        self.machine.delay.add(ms=ms_delay, callback=callback, mode=self)", "SCOPE-7"),
         M("relay player clears every context's handlers", "mpf/config_players/queue_relay_player.py", "        for queue, handler in self._get_instance_dict(context).items():\n            self.machine.events.remove_handler_by_key(handler)\n            queue.clear()", "        self.machine.events.remove_handler(self._callback)\n        for queue in self._get_instance_dict(context):\n            queue.clear()", "SCOPE-7"),
         M("start queue released but not forgotten", "mpf/core/mode.py", "            self._mode_start_wait_queue.clear()\n            self._mode_start_wait_queue = None", "            self._mode_start_wait_queue.clear()", "PAIR-2"),
+        M("config player plays for a stopped mode", "mpf/core/config_player.py", "            if not mode.active:\n                # It's possible that an earlier event could have stopped the\n                # mode before this event was handled, so just double-check to\n                # make sure the mode is still active before proceeding.\n                return None\n", "", "PAIR-8"),
     ]
 
 
